@@ -316,6 +316,19 @@ def unit_parsers(ctx, days):
                            property_fails=True)
                 diff.remove(i)
                 break
+    # repaired variants of the recorded round-2 findings are accepted silently (DESIGN 2.5)
+    wdiff = [i for i in diff if lines[i].startswith('du.weekend\t')]
+    if wdiff:
+        fixed = common.driver([lines[i].replace('du.weekend\t', 'du.weekendfixed\t', 1) for i in wdiff])
+        ok = {i for i, f in zip(wdiff, fixed) if impl[i] == f}
+        diff = [i for i in diff if i not in ok]
+        if ok:
+            ctx.extra['weekend_timex_variant'] = 'repaired (ISO year of the Saturday)'
+    for i in [i for i in diff if lines[i].startswith('du.mtd\t')]:
+        f = model[i].split('\t')
+        if len(f) == 4 and impl[i] == '\t'.join([f[0], f[1], f[1], f[3]]):
+            diff.remove(i)
+            ctx.extra['month_to_date_variant'] = 'repaired (past value starts on the 1st)'
     for i in diff[:3]:
         ctx.report('correspondence', 'parser-' + lines[i].split('\t')[0][3:], '%s (%r): implementation %s, model %s' % (
             lines[i], meta[i], impl[i], model[i]),
@@ -458,6 +471,8 @@ def pipeline(ctx):
                     expr, fi['reference'], got, mv), failing_input=fi)
             continue
         if got == want:
+            if fam in ('weekend', 'mtd'):
+                continue            # the independent oracle holds: the tree follows the repaired variant of a recorded finding
             if mv != got and isinstance(mv, list):
                 ctx.report('correspondence', 'pipeline-' + fam, '%r (%s) at %s: implementation %r, model %r' % (
                     expr, cul, fi['reference'], got, mv), failing_input=fi)
